@@ -21,7 +21,7 @@ RECV_ERR = "dc/s2n-quic-dc/src/stream/recv/error.rs"
 STREAM = "dc/s2n-quic-dc/src/stream.rs"
 DC_TESTING = "quic/s2n-quic-core/src/dc/testing.rs"
 REASM = "quic/s2n-quic-core/src/buffer/reassembler.rs"
-DECODER = "dc/s2n-quic-dc/src/packet/stream/decoder.rs"
+TRANSMISSION = "dc/s2n-quic-dc/src/stream/send/state/transmission.rs"
 
 
 def fn_body(src, name):
@@ -74,6 +74,7 @@ def extract(repo):
     stream = strip_comments(read(repo, STREAM))
     dct = strip_comments(read(repo, DC_TESTING))
     reasm = strip_comments(read(repo, REASM))
+    trans = strip_comments(read(repo, TRANSMISSION))
 
     # ---- idle timeout defaults ------------------------------------------------------------
     m = re.search(r"pub const DEFAULT_IDLE_TIMEOUT: Duration = ([^;]+);", stream)
@@ -156,6 +157,16 @@ def extract(repo):
         and "let included_fin = info.included_fin;" in tr
         and "decoder::Packet::retransmit( buffer, stream::PacketSpace::Recovery, packet_number, control_key, )" in tr),
         "retransmission: the stored segment buffer is re-sent via Packet::retransmit, bookkeeping copies offset/len/fin")
+    rc = fn_body(trans, "retransmit_copy")
+    eo = fn_body(trans, "end_offset")
+    tkr = fn_body(trans, "tracking_range")
+    flag(o, "retransmitCopyShape", bool(rc and re.search(
+        r"let retransmission = super::retransmission::Segment \{ segment, stream_offset: self\.stream_offset, "
+        r"payload_len: self\.payload_len, ty: super::TransmissionType::Stream, included_fin: self\.included_fin, \};", rc)
+        and eo and "self.stream_offset + VarInt::from_u16(self.payload_len)" in eo
+        and tkr and re.search(r"let start = Bound::Included\(self\.stream_offset\); let end = if self\.included_fin \{ "
+                              r"Bound::Included\(VarInt::MAX\) \} else \{ Bound::Excluded\(self\.end_offset\(\)\) \};", tkr)),
+        "a queued retransmission copies offset/len/fin of the lost packet; end_offset = offset + len; tracking range")
     ots = fn_body(send, "on_transmit_segment")
     flag(o, "transmitSegmentShape", bool(ots and "self.max_sent_offset = self.max_sent_offset.max(info.end_offset());" in ots
          and re.search(r"if info\.included_fin \{ let final_offset = info\.end_offset\(\); let _ = self\.unacked_ranges\.remove\(final_offset\.\.\); let _ = self\.state\.on_send_fin\(\); \}", ots)),
